@@ -17,7 +17,7 @@ RULE = (
     "empty lines, content matching nothing, truncated binary records, well-formed content; one text content in fifty holds a line of 8191-17000 characters). File.read(content) on the "
     "real code with a counter on the data container's append(); the read is aborted by the harness when the counter "
     "exceeds the deterministic budget 2*(1+units+sections)+8 (units = lines in text storage, bytes in binary "
-    "storage). Judged by Spec.C18.holds (the read returned and created at most units(+declared sections) elements) "
+    "storage); a second counter on the dispatch tests (Register.matches / Block.begins) bounds the steps that create no element. Binary register contents with bytes that are not valid UTF-8 are judged through their ASCII twin (the original must end too, by returning or by raising); three text register cases in a hundred are read from a PATH, larger than one decoding chunk, with an undecodable byte late in the file (raising or returning, within the element bound). Judged by Spec.C18.holds (the read returned and created at most units(+declared sections) elements) "
     "and compared with the model's element count. non-trivial = non-empty content; distinct by full case."
 )
 ASSUMPTIONS = [
